@@ -11,8 +11,7 @@ from pyvc.values import PyExc, to_real, to_z3
 from pyvc.verify import unit
 
 
-@unit('C12', 'meem', ['AEIC.emissions.ei.pmnvol:PMnvol_MEEM'], replay='contracts.C12:replay_meem', max_paths=int(__import__('os').environ.get('MEEM_MAX_PATHS', '20000')), timeout_ms=30000)
-def meem(h):
+def meem(h, use_sn, et):
     """MEEM along a trajectory of any length: every returned index is defined (no division by zero, no root / power /
     logarithm outside its domain), non-negative, and the mass and number indices are linear in the certification
     indices they are interpolated from (measured nvPM matrices with their optional maximum values)."""
@@ -27,7 +26,6 @@ def meem(h):
         for v in vals:
             h.assume(cond(v))
         return vals
-    use_sn = h.choice(2) == 1
     sn = tm('SN', lambda v: v > 0)
     mass = tm('nvPM_mass', lambda v: v > 0)
     num = tm('nvPM_num', lambda v: v > 0)
@@ -36,7 +34,8 @@ def meem(h):
     h.assume(pr > 1)
     bpr = h.real('bypass_ratio')
     h.assume(bpr >= 0)
-    et = ['TF', 'MTF'][h.choice(2)]
+    h.ctx.named['engine_type'] = z3.StringVal(et)
+    h.ctx.named['indices_from_smoke_numbers'] = z3.BoolVal(use_sn)
     mk = h.choice(3)
     mmax, mthr = [(-1, -1), (h.real('EImass_max'), rv('0.575')), (h.real('EImass_max'), rv('0.925'))][mk]
     nk = h.choice(3) if not use_sn else 0
@@ -153,3 +152,10 @@ def meem(h):
                       note=f'generalised over {len(subs)} sub-terms (thrust setting, powers)')
 
 
+
+
+for _sn in (False, True):
+    for _et in ('TF', 'MTF'):
+        unit('C12', f"meem[{'smoke-numbers' if _sn else 'measured-nvPM'},{_et}]", ['AEIC.emissions.ei.pmnvol:PMnvol_MEEM'],
+             replay='contracts.C12:replay_meem', max_paths=int(__import__('os').environ.get('MEEM_MAX_PATHS', '200')), timeout_ms=4000, max_seconds=240)(
+            (lambda sn_, et_: (lambda h: meem(h, sn_, et_)))(_sn, _et))
